@@ -17,6 +17,7 @@ import (
 	"log/slog"
 	"math/rand"
 	"net/http"
+	"path/filepath"
 	"sort"
 	"strings"
 	"sync"
@@ -63,6 +64,9 @@ type ctl struct {
 	warm      bool      // the prior phase is running
 	mounts    int       // cross-repository mount requests seen so far
 	slowUntil time.Time // after an injected fault the client sleeps in a back-off: settle more patiently
+	closeFn   func()    // the second user of the client (scenario fields closer / closer_cb)
+	wantClose bool      // the request being decided is the closer position
+	closed    int
 }
 
 func (c *ctl) poke() {
@@ -96,6 +100,12 @@ func (c *ctl) faultReply(p *pend, k string) *simreg.Reply {
 		return &simreg.Reply{Status: 429, Body: errBody("TOOMANYREQUESTS", "injected")}
 	case "500":
 		return &simreg.Reply{Status: 500, Body: errBody("UNKNOWN", "injected")}
+	case "502":
+		return &simreg.Reply{Status: 502, Body: []byte("bad gateway")}
+	case "504":
+		return &simreg.Reply{Status: 504, Body: []byte("gateway timeout")}
+	case "408":
+		return &simreg.Reply{Status: 408, Body: []byte("request timeout")}
 	case "reset":
 		return &simreg.Reply{Err: errReset}
 	case "resetall":
@@ -264,6 +274,9 @@ func (c *ctl) decide(p *pend, scripted string) (rp *simreg.Reply, act string) {
 	match := func(x *pos) bool {
 		return x != nil && x.Host == p.side && x.Class == p.class && x.N == p.n && (x.Occ == o || x.Occ == 0 && o == 1)
 	}
+	if match(c.sc.Closer) {
+		c.wantClose = true
+	}
 	if match(c.sc.Death) {
 		return nil, "death"
 	}
@@ -336,6 +349,7 @@ func (c *ctl) intercept(rq *simreg.Request) *simreg.Reply {
 		if rp == nil {
 			rp = c.override(p)
 		}
+		c.runCloserLocked()
 		c.mu.Unlock()
 		if c.w.tgtIsDir {
 			c.rec.dirSnap(vtrace.Event{"ev": "snap", "at": "req"})
@@ -361,6 +375,22 @@ func (c *ctl) intercept(rq *simreg.Request) *simreg.Reply {
 		c.poke()
 		return nil
 	}
+}
+
+// runCloserLocked lets the second user of the client act now (c.mu held; released while it runs: what the
+// copy's goroutines have in flight goes on meanwhile, requests arriving at the gate wait).
+func (c *ctl) runCloserLocked() {
+	if !c.wantClose || c.closeFn == nil {
+		c.wantClose = false
+		return
+	}
+	c.wantClose = false
+	c.closed++
+	c.mu.Unlock()
+	// what is being written to a layout target right now comes to rest first (a few quiet milliseconds)
+	time.Sleep(3 * time.Millisecond)
+	c.closeFn()
+	c.mu.Lock()
 }
 
 func (c *ctl) doCancelLocked(p *pend) {
@@ -424,6 +454,7 @@ func (c *ctl) releaseLocked(p *pend, scripted string) {
 		c.pending = append(c.pending, p)
 		return
 	}
+	c.runCloserLocked()
 	if c.w.tgtIsDir {
 		// layout target: the only observation points are the moments the copy talks to the source
 		c.rec.dirSnap(vtrace.Event{"ev": "snap", "at": "gate"})
@@ -773,7 +804,9 @@ func runScenario(sc *scenario, scratch string) (*vtrace.Trace, error) {
 	}
 	// only transient, retryable faults, fewer than the retry limit (reghttp absorbs them)
 	transient, nflt := !faultfree && sc.Cancel == nil && sc.Death == nil && sc.CancelCB == nil, 0
-	isTransient := func(k string) bool { return k == "429" || k == "500" || k == "reset" }
+	isTransient := func(k string) bool {
+		return k == "429" || k == "500" || k == "reset" || k == "502" || k == "504" || k == "408"
+	}
 	for _, f := range sc.Faults {
 		nflt++
 		transient = transient && isTransient(f.Kind)
@@ -831,11 +864,14 @@ func runScenario(sc *scenario, scratch string) (*vtrace.Trace, error) {
 	if sc.Chunked != 0 {
 		regOpts = append(regOpts, reg.WithBlobSize(96, 128))
 	}
-	rc := regclient.New(
-		regclient.WithConfigHost(hosts...),
-		regclient.WithRegOpts(regOpts...),
-		regclient.WithSlog(slog.New(slog.NewTextHandler(io.Discard, nil))),
-	)
+	newRC := func() *regclient.RegClient {
+		return regclient.New(
+			regclient.WithConfigHost(hosts...),
+			regclient.WithRegOpts(regOpts...),
+			regclient.WithSlog(slog.New(slog.NewTextHandler(io.Discard, nil))),
+		)
+	}
+	rc := newRC()
 	rSrc, err := ref.New(w.refSrc)
 	if err != nil {
 		return nil, fmt.Errorf("source ref: %w", err)
@@ -843,6 +879,46 @@ func runScenario(sc *scenario, scratch string) (*vtrace.Trace, error) {
 	rTgt, err := ref.New(w.refTgt)
 	if err != nil {
 		return nil, fmt.Errorf("target ref: %w", err)
+	}
+	if sc.Closer != nil || sc.CloserCB != nil {
+		var rOther, rOtherTgt ref.Ref
+		haveOther := false
+		if sc.CloserOp == "copyclose" && !w.sameRepo() {
+			od := filepath.Join(scratch, "other")
+			if err := w.writeLayout(od, []string{"OLDM", "OLDC", "OLDL"}, map[string]string{srcTag: "OLDM"}); err != nil {
+				return nil, err
+			}
+			base := w.refTgt
+			if i := strings.LastIndexAny(base, "@"); i >= 0 {
+				base = base[:i]
+			} else if i := strings.LastIndex(base, ":"+tgtTag); i >= 0 {
+				base = base[:i]
+			}
+			r1, err1 := ref.New("ocidir://" + od + ":" + srcTag)
+			r2, err2 := ref.New(base + ":other")
+			if err1 == nil && err2 == nil {
+				rOther, rOtherTgt, haveOther = r1, r2, true
+			}
+		}
+		c.closeFn = func() {
+			fin := make(chan struct{})
+			go func() {
+				defer close(fin)
+				if haveOther {
+					_ = rc.ImageCopy(context.Background(), rOther, rOtherTgt)
+				}
+				_ = rc.Close(context.Background(), rTgt)
+			}()
+			select {
+			case <-fin:
+			case <-time.After(5 * time.Second):
+			}
+			if w.tgtIsDir {
+				rec.dirSnap(vtrace.Event{"ev": "snap", "at": "close"})
+			} else {
+				rec.emit(vtrace.Event{"ev": "note", "what": "close"})
+			}
+		}
 	}
 	opts := []regclient.ImageOpts{}
 	if sc.Opts.Force != 0 {
@@ -879,17 +955,26 @@ func runScenario(sc *scenario, scratch string) (*vtrace.Trace, error) {
 	if len(plats) > 0 {
 		opts = append(opts, regclient.ImageWithPlatforms(strings.Split(sc.Opts.Platforms, ",")))
 	}
-	if w.tgtIsDir || sc.CancelCB != nil || sc.Callback != 0 {
+	if w.tgtIsDir || sc.CancelCB != nil || sc.Callback != 0 || sc.CloserCB != nil {
 		// the progress callback runs inside the copy's goroutines: further observation points of a
 		// layout target (the only ones when the source is a layout as well), and a place to cancel
 		// "after the blob has been fetched, before it is stored"
-		cbSeen := 0
+		cbSeen, cbClose := 0, 0
 		opts = append(opts, regclient.ImageWithCallback(func(kind types.CallbackKind, instance string, state types.CallbackState, cur, total int64) {
 			if sc.CancelCB != nil && kind == types.CallbackBlob && state == types.CallbackStarted && w.name(instance) == sc.CancelCB.N {
 				c.mu.Lock()
 				cbSeen++
 				if cbSeen == sc.CancelCB.Occ {
 					c.doCancelLocked(nil)
+				}
+				c.mu.Unlock()
+			}
+			if sc.CloserCB != nil && kind == types.CallbackBlob && state == types.CallbackFinished && w.name(instance) == sc.CloserCB.N {
+				c.mu.Lock()
+				cbClose++
+				if cbClose == sc.CloserCB.Occ || (sc.CloserCB.Occ == 0 && cbClose == 1) {
+					c.wantClose = true
+					c.runCloserLocked()
 				}
 				c.mu.Unlock()
 			}
@@ -908,7 +993,7 @@ func runScenario(sc *scenario, scratch string) (*vtrace.Trace, error) {
 	}
 
 	// ----- what the same client did before (its caches and feature memos carry over)
-	if sc.Prior == "recopy" && !w.sameRepo() {
+	if (sc.Prior == "recopy" || sc.Prior == "recopy-other") && !w.sameRepo() {
 		// the same copy was made before; then content vanished from the target behind the client's back
 		c.mu.Lock()
 		c.warm = true
@@ -916,7 +1001,17 @@ func runScenario(sc *scenario, scratch string) (*vtrace.Trace, error) {
 		rec.mu.Lock()
 		rec.muted = true
 		rec.mu.Unlock()
-		_ = rc.ImageCopy(ctx, rSrc, rTgt, opts...)
+		if sc.Prior == "recopy-other" {
+			// somebody else made the copy (and closed the target, as regctl does): the observed client is fresh
+			rc0 := newRC()
+			_ = rc0.ImageCopy(ctx, rSrc, rTgt, opts...)
+			_ = rc0.Close(ctx, rTgt)
+		} else {
+			_ = rc.ImageCopy(ctx, rSrc, rTgt, opts...)
+			if sc.Seed%2 == 0 {
+				_ = rc.Close(ctx, rTgt)
+			}
+		}
 		w.wipe(sc.Wipe)
 		c.mu.Lock()
 		c.warm = false
@@ -924,7 +1019,7 @@ func runScenario(sc *scenario, scratch string) (*vtrace.Trace, error) {
 		rec.mu.Lock()
 		rec.muted = false
 		rec.mu.Unlock()
-	} else if sc.Prior != "" && sc.Prior != "recopy" && w.tgtHost != nil && !w.sameRepo() {
+	} else if sc.Prior != "" && (w.tgtHost != nil || (sc.Prior != "copy" && sc.Prior != "get")) && !w.sameRepo() {
 		c.mu.Lock()
 		c.warm = true
 		c.mu.Unlock()
@@ -938,6 +1033,37 @@ func runScenario(sc *scenario, scratch string) (*vtrace.Trace, error) {
 			}
 			if rWarm, err := ref.New(w.tgtHost.Name + "/proj/warm:" + tgtTag); err == nil {
 				_ = rc.ImageCopy(ctx, rSrc, rWarm, opts...)
+			}
+		case "reflist", "taglist", "head":
+			// listings and HEADs the same client made before (artifact list / tag ls / manifest head): with the
+			// cache on their answers are what the copy sees
+			if w.srcIsDir {
+				break
+			}
+			if sc.Prior == "taglist" {
+				if r, err := ref.New(hostA + "/" + srcRepo); err == nil {
+					_, _ = rc.TagList(ctx, r)
+				}
+				break
+			}
+			for _, k := range w.order {
+				n := w.nodes[k]
+				if !n.isMan() || strings.HasPrefix(k, "OLD") {
+					continue
+				}
+				r, err := ref.New(hostA + "/" + srcRepo + "@" + n.Dig)
+				if err != nil {
+					continue
+				}
+				if sc.Prior == "head" {
+					_, _ = rc.ManifestHead(ctx, r)
+					continue
+				}
+				ro := []scheme.ReferrerOpts{}
+				if sc.PriorArg != "" {
+					ro = append(ro, scheme.WithReferrerMatchOpt(descriptor.MatchOpt{ArtifactType: sc.PriorArg}))
+				}
+				_, _ = rc.ReferrerList(ctx, r, ro...)
 			}
 		case "get":
 			if !w.srcIsDir {
